@@ -2727,8 +2727,8 @@ class RepeatUntil(Subconstruct):
                 objiter = iter(obj)
                 list_ = ListContainer()
                 while True:
-                    obj_ = reuse(next(objiter), lambda obj: {self.subcon._compilebuild(code)})
-                    list_.append(obj_)
+                    obj_ = next(objiter)
+                    list_.append(reuse(obj_, lambda obj: {self.subcon._compilebuild(code)}))
                     if ({self.predicate}):
                         return list_
         """
